@@ -1,7 +1,7 @@
 (** C13/C20: ODE modifiers written on the command line are the ones stored. *)
 From Coq Require Import List Arith Bool String Ascii Lia.
 From Naunet Require Import Lib.ListX Lib.PyStr Model.Config Model.Decode
-     Proofs.SpeciesProofs Proofs.IndexProofs Proofs.DecodeProofs.
+     Proofs.SpeciesProofs Proofs.IndexProofs Proofs.DecodeProofs Proofs.ConfigProofs.
 Import ListNotations.
 Open Scope string_scope.
 Open Scope list_scope.
@@ -125,4 +125,198 @@ Proof.
   change (chars d0 :: map chars ds) with (map chars (d0 :: ds)).
   rewrite removelast_last by discriminate. rewrite map_map.
   rewrite map_ext with (g := fun x => x); [apply map_id|]. intro a. apply str_chars.
+Qed.
+
+(** ** accumulating items of one species after the others *)
+Definition mk_om (k : string) (fs : list string) (ds : list (list string)) : omod :=
+  {| om_key := k; om_factors := fs; om_reactants := ds |}.
+
+Lemma om_add_absent k f d : forall acc, ~ In k (map om_key acc) ->
+  om_add k f d acc = acc ++ [mk_om k [f] [d]].
+Proof.
+  induction acc as [|m r IH]; intro H; simpl. reflexivity.
+  destruct (String.eqb_spec (om_key m) k) as [E|E].
+  - exfalso. apply H. simpl. auto.
+  - f_equal. apply IH. intro Hin. apply H. simpl. auto.
+Qed.
+
+Lemma om_add_last k f d fs ds : forall acc, ~ In k (map om_key acc) ->
+  om_add k f d (acc ++ [mk_om k fs ds]) = acc ++ [mk_om k (fs ++ [f]) (ds ++ [d])].
+Proof.
+  induction acc as [|m r IH]; intro H; simpl.
+  - rewrite String.eqb_refl. reflexivity.
+  - destruct (String.eqb_spec (om_key m) k) as [E|E].
+    + exfalso. apply H. simpl. auto.
+    + f_equal. apply IH. intro Hin. apply H. simpl. auto.
+Qed.
+
+(* the items of one modifier, added in order to a list that does not know its species *)
+Lemma add_items k : forall fds f0 d0 acc, ~ In k (map om_key acc) ->
+  fold_left (fun a (fd : string * list string) => om_add k (fst fd) (snd fd) a) fds (acc ++ [mk_om k f0 d0])
+  = acc ++ [mk_om k (f0 ++ map fst fds) (d0 ++ map snd fds)].
+Proof.
+  induction fds as [|[f d] r IH]; intros f0 d0 acc H; simpl.
+  - rewrite !app_nil_r. reflexivity.
+  - rewrite om_add_last by exact H. rewrite IH by exact H. rewrite <- !app_assoc. reflexivity.
+Qed.
+
+Lemma map_fst_combine' {A B} (l : list A) : forall (l' : list B), List.length l = List.length l' -> map fst (combine l l') = l.
+Proof. induction l as [|a l IH]; intros [|b l'] H; simpl in *; try discriminate; auto. f_equal. apply IH. lia. Qed.
+Lemma map_snd_combine' {A B} (l : list A) : forall (l' : list B), List.length l = List.length l' -> map snd (combine l l') = l'.
+Proof. induction l as [|a l IH]; intros [|b l'] H; simpl in *; try discriminate; auto. f_equal. apply IH. lia. Qed.
+
+(** ** one line of --ode-modifier *)
+Definition item_ok3 (k f : string) (ds : list string) : Prop :=
+  nosep ":"%char k /\ nosep ";"%char k /\
+  nosep ":"%char f /\ nosep ","%char f /\ nosep ";"%char f /\
+  ds <> [] /\ Forall dep_ok ds /\ Forall (nosep ";"%char) ds.
+
+Definition om_ok (m : omod) : Prop :=
+  om_factors m <> [] /\ List.length (om_factors m) = List.length (om_reactants m) /\
+  Forall (fun fd : string * list string => item_ok3 (om_key m) (fst fd) (snd fd))
+         (combine (om_factors m) (om_reactants m)).
+
+Definition ode_ok (ms : list omod) : Prop := NoDup (map om_key ms) /\ Forall om_ok ms.
+
+Definition item_text (k : string) (fd : string * list string) : string :=
+  (k ++ ":" ++ fst fd ++ ",[" ++ join " "%char (snd fd) ++ "]")%string.
+
+Lemma print_om_items m : print_om m = map (item_text (om_key m)) (combine (om_factors m) (om_reactants m)).
+Proof. reflexivity. Qed.
+
+Lemma parse_item_text k fd : item_ok3 k (fst fd) (snd fd) ->
+  parse_om_item (item_text k fd) = Some (k, fst fd, snd fd).
+Proof.
+  intros (Hk & _ & Hf1 & Hf2 & _ & Hne & Hd & _). unfold item_text.
+  assert (Hd' : Forall (fun d => word_ok (chars d) /\ nosep ":"%char d /\ nosep ","%char d /\ nosep "["%char d /\ nosep "]"%char d) (snd fd)).
+  { eapply Forall_impl; [|exact Hd]. intros d (H1 & H2 & H3 & H4 & H5). auto. }
+  rewrite (parse_om_item_lemma k (fst fd) (snd fd) Hk Hf1 Hf2 Hd' Hne).
+  rewrite dep_text_lemma; auto.
+Qed.
+
+Lemma item_text_nonempty k fd : item_text k fd <> ""%string.
+Proof.
+  unfold item_text. intro E. apply (f_equal chars) in E. rewrite chars_app in E.
+  change (chars ("")%string) with (@nil ascii) in E.
+  apply app_eq_nil in E. destruct E as [_ E]. rewrite chars_app in E. discriminate.
+Qed.
+
+(* parse_om_line over the items of [ms], starting from any accumulator that knows none of their species *)
+Lemma parse_items_of_mod m : om_ok m -> forall acc, ~ In (om_key m) (map om_key acc) ->
+  forall rest, 
+  parse_om_line (map (item_text (om_key m)) (combine (om_factors m) (om_reactants m)) ++ rest) acc =
+  parse_om_line rest (acc ++ [m]).
+Proof.
+  intros (Hne & Hlen & Hall) acc Hk rest.
+  destruct m as [k fs ds]. simpl in *.
+  destruct fs as [|f0 fs]; [congruence|]. destruct ds as [|d0 ds]; [discriminate|].
+  simpl combine in *. inversion Hall as [|? ? H0 Hr]; subst.
+  cbn [map app parse_om_line].
+  destruct (String.eqb_spec (item_text k (f0, d0)) "") as [E|_]; [exfalso; eapply item_text_nonempty; eauto|].
+  rewrite (parse_item_text k (f0, d0) H0). cbn [fst snd].
+  rewrite om_add_absent by exact Hk.
+  (* the remaining items *)
+  assert (G : forall fds f1 d1, Forall (fun fd : string * list string => item_ok3 k (fst fd) (snd fd)) fds ->
+            parse_om_line (map (item_text k) fds ++ rest) (acc ++ [mk_om k f1 d1]) =
+            parse_om_line rest (acc ++ [mk_om k (f1 ++ map fst fds) (d1 ++ map snd fds)])).
+  { induction fds as [|fd r IH]; intros f1 d1 HF; simpl.
+    - rewrite !app_nil_r. reflexivity.
+    - inversion HF as [|? ? Hfd Hr']; subst.
+      destruct (String.eqb_spec (item_text k fd) "") as [E|_]; [exfalso; eapply item_text_nonempty; eauto|].
+      rewrite (parse_item_text k fd Hfd). rewrite om_add_last by exact Hk.
+      rewrite IH by exact Hr'. rewrite <- !app_assoc. reflexivity. }
+  rewrite (G (combine fs ds) [f0] [d0] Hr).
+  assert (List.length fs = List.length ds) as Hl by (simpl in Hlen; lia).
+  rewrite map_fst_combine', map_snd_combine' by exact Hl. reflexivity.
+Qed.
+
+(** ** the whole option *)
+Lemma parse_line_all : forall ms acc,
+  NoDup (map om_key ms) -> Forall om_ok ms ->
+  (forall m, In m ms -> ~ In (om_key m) (map om_key acc)) ->
+  parse_om_line (flat_map print_om ms) acc = Some (acc ++ ms).
+Proof.
+  induction ms as [|m r IH]; intros acc Hnd Hok Hfresh; simpl.
+  - rewrite app_nil_r. reflexivity.
+  - inversion Hnd as [|? ? Hnin Hnd']; subst. inversion Hok as [|? ? Hm Hr]; subst.
+    rewrite print_om_items.
+    rewrite (parse_items_of_mod m Hm acc (Hfresh m (or_introl eq_refl))).
+    rewrite IH; auto.
+    + rewrite <- app_assoc. reflexivity.
+    + intros m' Hin. rewrite map_app, in_app_iff. simpl. intros [H|[H|[]]].
+      * apply (Hfresh m' (or_intror Hin)). exact H.
+      * apply Hnin. rewrite H. apply in_map. exact Hin.
+Qed.
+
+Lemma item_text_nosemi k fd : item_ok3 k (fst fd) (snd fd) -> no_char ";"%char (chars (item_text k fd)).
+Proof.
+  intros (_ & Hk & _ & _ & Hf & _ & _ & Hds). unfold item_text, no_char.
+  rewrite !chars_app. intro Hin.
+  apply in_app_or in Hin. destruct Hin as [Hin|Hin]; [exact (Hk Hin)|].
+  simpl in Hin. destruct Hin as [E|Hin]; [discriminate|].
+  apply in_app_or in Hin. destruct Hin as [Hin|Hin]; [exact (Hf Hin)|].
+  simpl in Hin. destruct Hin as [E|[E|Hin]]; try discriminate.
+  apply in_app_or in Hin. destruct Hin as [Hin|[E|[]]]; try discriminate.
+  unfold join in Hin. rewrite chars_str in Hin.
+  revert Hin. apply no_char_join. discriminate.
+  apply Forall_forall. intros w Hw. apply in_map_iff in Hw. destruct Hw as (d & <- & Hd).
+  rewrite Forall_forall in Hds. exact (Hds d Hd).
+Qed.
+
+Theorem parse_ode_mods_print_lemma ms : ode_ok ms ->
+  parse_ode_mods [join ";"%char (flat_map print_om ms)] [] = Some ms.
+Proof.
+  intros [Hnd Hok]. cbn [parse_ode_mods].
+  destruct ms as [|m r].
+  - reflexivity.
+  - assert (Hne : flat_map print_om (m :: r) <> []).
+    { inversion Hok as [|? ? (Hf & Hl & _) _]; subst. simpl. rewrite print_om_items.
+      destruct (om_factors m) as [|f fs]; [congruence|]. destruct (om_reactants m) as [|d ds]; [discriminate|].
+      simpl. discriminate. }
+    rewrite split_on_join; [| exact Hne |].
+    + rewrite (parse_line_all (m :: r) [] Hnd Hok) by (intros ? _ []). reflexivity.
+    + apply Forall_forall. intros it Hit. apply in_flat_map in Hit. destruct Hit as (m' & Hm' & Hit).
+      rewrite print_om_items in Hit. apply in_map_iff in Hit. destruct Hit as (fd & <- & Hfd).
+      rewrite Forall_forall in Hok. destruct (Hok m' Hm') as (_ & _ & Hall).
+      rewrite Forall_forall in Hall. apply item_text_nosemi. apply Hall. exact Hfd.
+Qed.
+
+(** ** the whole description, ODE modifiers included *)
+Definition with_ode (c : cfg) (om : list omod) : cfg :=
+  {| c_name := c_name c; c_description := c_description c; c_loads := c_loads c;
+     c_elements := c_elements c; c_pseudo := c_pseudo c; c_replacement := c_replacement c;
+     c_grain := c_grain c; c_surface := c_surface c; c_bulk := c_bulk c;
+     c_allowed := c_allowed c; c_required := c_required c;
+     c_binding := c_binding c; c_yield := c_yield c;
+     c_grain_model := c_grain_model c; c_files := c_files c; c_formats := c_formats c;
+     c_heating := c_heating c; c_cooling := c_cooling c; c_shielding := c_shielding c;
+     c_rate_mods := c_rate_mods c; c_ode_mods := om;
+     c_solver := c_solver c; c_device := c_device c; c_method := c_method c |}.
+
+Theorem options_roundtrip_full_lemma c :
+  wf_cfg (with_ode c []) -> ode_ok (c_ode_mods c) ->
+  no_null (join ";"%char (flat_map print_om (c_ode_mods c))) ->
+  init_config true (print_opts c) = Some c.
+Proof.
+  intros Hwf Hok Hnn. pose proof (options_roundtrip_lemma _ Hwf) as H0.
+  unfold init_config in *.
+  cbn [print_opts with_ode o_name o_description o_loading o_elements o_pseudo o_replacement o_surface o_bulk
+    o_allowed o_extra o_binding o_yield o_grain_symbol o_grain_model o_files o_formats o_heating o_cooling o_shielding
+    o_rate_mods o_ode_mods o_solver o_device o_method
+    c_name c_description c_loads c_elements c_pseudo c_replacement c_grain c_surface c_bulk c_allowed c_required
+    c_binding c_yield c_grain_model c_files c_formats c_heating c_cooling c_shielding c_rate_mods c_ode_mods
+    c_solver c_device c_method] in *.
+  cbn [map] in *. unfold no_null in Hnn. rewrite Hnn, (parse_ode_mods_print_lemma _ Hok).
+  repeat match type of H0 with
+         | context [match ?X with _ => _ end] =>
+             match X with
+             | parse_ode_mods _ _ => fail 1
+             | _ => destruct X eqn:?; try discriminate
+             end
+         end.
+  destruct (parse_ode_mods _ _) in H0; try discriminate.
+  injection H0 as E1 E2 E3 E4 E5 E6 E7 E8 E9 E10 E11 E12 E13 E14 E15 E16 E17 E18 E19 E20 E21 E22 E23 E24.
+  subst.
+  repeat match goal with E : ?a = ?b |- context [?a] => rewrite E; clear E end.
+  destruct c. reflexivity.
 Qed.
